@@ -172,4 +172,416 @@ theorem lookupVar_pushData (sc : Scope) (alias id : String) :
   · simp only [lookupVar, pushData, createVariable, findLast_append_singleton]
     simp
 
+
+
+/-! ### textual inclusion = import compilation (functions; no data imports) -/
+
+mutual
+  /-- no data imports and no load failures anywhere in the tree -/
+  def pureMod : MTree → Bool
+    | .node _ imps _ => pureImports imps
+  def pureImports : List ITree → Bool
+    | [] => true
+    | .mod _ t :: rest => pureMod t && pureImports rest
+    | .data _ _ :: _ => false
+    | .fail _ :: _ => false
+end
+
+/-- every function call in the block refers to the definition being made or to an earlier
+    definition of the block (`seen`) -/
+def closedDefs (seen : List (String × Nat)) : List Def → Bool
+  | [] => true
+  | d :: ds =>
+    d.calls.all (fun c => match c with
+      | .fn n a => (n == d.name && a == d.arity) || seen.contains (n, a)
+      | .var _ => true)
+    && closedDefs (seen ++ [(d.name, d.arity)]) ds
+
+mutual
+  /-- the text of every module imported with an alias (at any depth) is closed -/
+  def closedMod : MTree → Bool
+    | .node _ imps _ => closedImports imps
+  def closedImports : List ITree → Bool
+    | [] => true
+    | .mod alias t :: rest => (decide (alias = "") || closedDefs [] (inlineMod t)) && closedMod t && closedImports rest
+    | .data _ _ :: rest => closedImports rest
+    | .fail _ :: rest => closedImports rest
+end
+
+theorem findLast_append {α} (p : α → Bool) (xs ys : List α) :
+    findLast p (xs ++ ys) = match findLast p ys with | some y => some y | none => findLast p xs := by
+  induction xs with
+  | nil => simp [findLast]; cases findLast p ys <;> rfl
+  | cons x xs ih =>
+    simp only [List.cons_append, findLast, ih]
+    cases findLast p ys <;> simp
+
+theorem findLast_map {α β} (f : α → β) (p : β → Bool) (xs : List α) :
+    findLast p (xs.map f) = (findLast (p ∘ f) xs).map f := by
+  induction xs with
+  | nil => rfl
+  | cons x xs ih =>
+    simp only [List.map_cons, findLast, ih]
+    cases findLast (p ∘ f) xs <;> simp [Function.comp]
+
+theorem findLast_isSome_of_mem {α} (p : α → Bool) (xs : List α) (x : α) (hx : x ∈ xs) (hp : p x = true) :
+    (findLast p xs).isSome = true := by
+  induction xs with
+  | nil => cases hx
+  | cons y ys ih =>
+    simp only [findLast]
+    cases h : findLast p ys with
+    | some z => simp
+    | none =>
+      rcases List.mem_cons.mp hx with rfl | h'
+      · simp [hp]
+      · have := ih h'; simp [h] at this
+
+theorem prefixed_name_eq (a n m : String) : (a ++ "::" ++ n == a ++ "::" ++ m) = (n == m) := by
+  by_cases h : n = m
+  · subst h
+    rw [beq_self_eq_true, beq_self_eq_true]
+  · have h2 : a ++ "::" ++ n ≠ a ++ "::" ++ m := fun h' => h ((String.append_right_inj _).mp h')
+    rw [beq_eq_false_iff_ne.mpr h, beq_eq_false_iff_ne.mpr h2]
+
+theorem lookupFunc_prefixed (a : String) (F L : List FuncInfo) (n : String) (k : Nat)
+    (h : (lookupFunc L n k).isSome = true) :
+    lookupFunc (F ++ L.map (prefixF a)) (a ++ "::" ++ n) k = (lookupFunc L n k).map (prefixF a) := by
+  unfold lookupFunc at *
+  rw [findLast_append, findLast_map]
+  have hcomp : ((fun f : FuncInfo => f.name == a ++ "::" ++ n && f.argcnt == k) ∘ prefixF a)
+      = (fun f : FuncInfo => f.name == n && f.argcnt == k) := by
+    funext f; simp [Function.comp, prefixF, prefixed_name_eq]
+  rw [hcomp]
+  cases hh : findLast (fun f : FuncInfo => f.name == n && f.argcnt == k) L with
+  | none => simp [hh] at h
+  | some f => simp
+
+/-- scope used on the importing side while a block that came from `import … as a` is compiled -/
+def outerScope (a : String) (F L : List FuncInfo) (V : List VarInfo) (d : Nat) : Scope :=
+  { funcs := F ++ L.map (prefixF a), variables := V, depth := d }
+
+theorem mem_names_lookup (L : List FuncInfo) (n : String) (k : Nat) (h : (L.map nameArity).contains (n, k) = true) :
+    (lookupFunc L n k).isSome = true := by
+  rw [List.contains_iff_mem, List.mem_map] at h
+  obtain ⟨f, hf, hfe⟩ := h
+  simp only [nameArity, Prod.mk.injEq] at hfe
+  exact findLast_isSome_of_mem _ L f hf (by simp [hfe.1, hfe.2])
+
+theorem resolveCall_renamed (cfg : Cfg) (a : String) (F L : List FuncInfo) (V : List VarInfo) (d d' : Nat)
+    (self : String × Nat) (c : Call)
+    (hc : match c with
+      | .fn n k => ((n == self.1 && k == self.2) || (L.map nameArity).contains (n, k)) = true
+      | .var _ => True) :
+    resolveCall cfg (outerScope a F L V d) (some (a ++ "::" ++ self.1, self.2)) (prefixCall a c)
+      = resolveCall cfg ⟨L, V, d'⟩ (some self) c := by
+  cases c with
+  | var n => simp [resolveCall, prefixCall, outerScope]
+  | fn n k =>
+    simp only [prefixCall, resolveCall]
+    have hself : (some (a ++ "::" ++ self.1, self.2) == some (a ++ "::" ++ n, k)) = (some self == some (n, k)) := by
+      cases self with
+      | mk s1 s2 =>
+        by_cases h1 : s1 = n <;> by_cases h2 : s2 = k
+        · subst h1; subst h2; simp
+        · have : (s1, s2) ≠ (n, k) := fun h => h2 (Prod.mk.inj h).2
+          have h3 : (a ++ "::" ++ s1, s2) ≠ (a ++ "::" ++ n, k) := fun h => h2 (Prod.mk.inj h).2
+          simp only [Option.some_beq_some]
+          rw [beq_eq_false_iff_ne.mpr this, beq_eq_false_iff_ne.mpr h3]
+        · have : (s1, s2) ≠ (n, k) := fun h => h1 (Prod.mk.inj h).1
+          have h3 : (a ++ "::" ++ s1, s2) ≠ (a ++ "::" ++ n, k) :=
+            fun h => h1 ((String.append_right_inj _).mp (Prod.mk.inj h).1)
+          simp only [Option.some_beq_some]
+          rw [beq_eq_false_iff_ne.mpr this, beq_eq_false_iff_ne.mpr h3]
+        · have : (s1, s2) ≠ (n, k) := fun h => h1 (Prod.mk.inj h).1
+          have h3 : (a ++ "::" ++ s1, s2) ≠ (a ++ "::" ++ n, k) := fun h => h2 (Prod.mk.inj h).2
+          simp only [Option.some_beq_some]
+          rw [beq_eq_false_iff_ne.mpr this, beq_eq_false_iff_ne.mpr h3]
+    by_cases hs : (some self == some (n, k)) = true
+    · simp only [hself, hs, if_true]
+    · have hs' : (some self == some (n, k)) = false := by simpa using hs
+      simp only [hself, hs', Bool.false_eq_true, if_false]
+      have hne : ¬ ((n == self.1 && k == self.2) = true) := by
+        intro h
+        simp only [Bool.and_eq_true, beq_iff_eq] at h
+        apply hs
+        cases self; simp_all
+      have hin : (L.map nameArity).contains (n, k) = true := by
+        simp only [Bool.or_eq_true] at hc
+        rcases hc with h | h
+        · exact absurd h hne
+        · exact h
+      have hsome := mem_names_lookup L n k hin
+      simp only [outerScope]
+      rw [lookupFunc_prefixed a F L n k hsome]
+      cases hl : lookupFunc L n k with
+      | none => simp [hl] at hsome
+      | some f => simp [prefixF]
+
+def callOk (self : String × Nat) (seen : List (String × Nat)) (c : Call) : Bool :=
+  match c with
+  | .fn n k => (n == self.1 && k == self.2) || seen.contains (n, k)
+  | .var _ => true
+
+theorem resolveCalls_renamed (cfg : Cfg) (a : String) (F L : List FuncInfo) (V : List VarInfo) (d d' : Nat)
+    (self : String × Nat) : ∀ (cs : List Call), cs.all (callOk self (L.map nameArity)) = true →
+    resolveCalls cfg (outerScope a F L V d) (some (a ++ "::" ++ self.1, self.2)) (cs.map (prefixCall a))
+      = resolveCalls cfg ⟨L, V, d'⟩ (some self) cs
+  | [], _ => rfl
+  | c :: cs, h => by
+    simp only [List.all_cons, Bool.and_eq_true] at h
+    have h1 := resolveCall_renamed cfg a F L V d d' self c (by
+      cases c with
+      | fn n k => simpa [callOk] using h.1
+      | var n => trivial)
+    simp only [List.map_cons, resolveCalls, h1, resolveCalls_renamed cfg a F L V d d' self cs h.2]
+
+theorem closedDefs_cons (seen : List (String × Nat)) (d : Def) (ds : List Def) :
+    closedDefs seen (d :: ds) = (d.calls.all (callOk (d.name, d.arity) seen) && closedDefs (seen ++ [(d.name, d.arity)]) ds) := by
+  simp only [closedDefs]
+  congr 2
+
+/-- compiling a renamed closed block in the importer's scope = compiling the block on its own
+    and prefixing the names afterwards -/
+theorem compileDefs_renamed (cfg : Cfg) (a : String) (F : List FuncInfo) (V : List VarInfo) (d d' : Nat) :
+    ∀ (ds : List Def) (L : List FuncInfo), closedDefs (L.map nameArity) ds = true →
+    compileDefs cfg (renameDefs a ds) (outerScope a F L V d)
+      = (compileDefs cfg ds ⟨L, V, d'⟩).map (fun s => outerScope a F s.funcs V d)
+  | [], L, _ => by simp [renameDefs, compileDefs, Except.map]
+  | dd :: ds, L, h => by
+    rw [closedDefs_cons, Bool.and_eq_true] at h
+    have hr := resolveCalls_renamed cfg a F L V d d' (dd.name, dd.arity) dd.calls h.1
+    simp only [renameDefs, List.map_cons, compileDefs, compileDef]
+    simp only at hr
+    rw [hr]
+    cases hres : resolveCalls cfg ⟨L, V, d'⟩ (some (dd.name, dd.arity)) dd.calls with
+    | error e => simp [Except.map]
+    | ok subs =>
+      simp only
+      have ih := compileDefs_renamed cfg a F V d d' ds (L ++ [⟨dd.name, dd.arity, render dd.tag subs⟩])
+        (by simpa [nameArity] using h.2)
+      have hsc : ({ funcs := (outerScope a F L V d).funcs ++ [⟨a ++ "::" ++ dd.name, dd.arity, render dd.tag subs⟩],
+                    variables := (outerScope a F L V d).variables, depth := (outerScope a F L V d).depth } : Scope)
+          = outerScope a F (L ++ [⟨dd.name, dd.arity, render dd.tag subs⟩]) V d := by
+        simp [outerScope, prefixF]
+      simp only [renameDefs] at ih
+      rw [hsc, ih]
+
+theorem compileDefs_append (cfg : Cfg) : ∀ (xs ys : List Def) (sc : Scope),
+    compileDefs cfg (xs ++ ys) sc =
+      match compileDefs cfg xs sc with
+      | .error e => .error e
+      | .ok s => compileDefs cfg ys s
+  | [], ys, sc => by simp [compileDefs]
+  | x :: xs, ys, sc => by
+    simp only [List.cons_append, compileDefs]
+    cases compileDef cfg sc x with
+    | error e => rfl
+    | ok s => exact compileDefs_append cfg xs ys s
+
+theorem resolveCalls_depth (cfg : Cfg) (sc : Scope) (d : Nat) (self : Option (String × Nat)) :
+    ∀ cs, resolveCalls cfg { sc with depth := d } self cs = resolveCalls cfg sc self cs
+  | [] => rfl
+  | c :: cs => by
+    have h1 : resolveCall cfg { sc with depth := d } self c = resolveCall cfg sc self c := by
+      cases c <;> rfl
+    simp only [resolveCalls, h1, resolveCalls_depth cfg sc d self cs]
+
+theorem compileDefs_depth (cfg : Cfg) (d : Nat) : ∀ (ds : List Def) (sc : Scope),
+    compileDefs cfg ds { sc with depth := d } = (compileDefs cfg ds sc).map (fun s => { s with depth := d })
+  | [], sc => by simp [compileDefs, Except.map]
+  | x :: xs, sc => by
+    simp only [compileDefs, compileDef, resolveCalls_depth]
+    cases resolveCalls cfg sc (some (x.name, x.arity)) x.calls with
+    | error e => simp [Except.map]
+    | ok subs =>
+      exact compileDefs_depth cfg d xs { sc with funcs := sc.funcs ++ [⟨x.name, x.arity, render x.tag subs⟩] }
+
+mutual
+  theorem compileMod_inline (cfg : Cfg) (hiso : cfg.isolate = true) :
+      ∀ (t : MTree) (alias : String) (sc : Scope), pureMod t = true → closedMod t = true →
+        (alias = "" ∨ closedDefs [] (inlineMod t) = true) → sc.variables.length ≤ cfg.globalcnt →
+        compileMod cfg t alias sc
+          = compileDefs cfg (if alias = "" then inlineMod t else renameDefs alias (inlineMod t)) sc
+    | .node file imps defs, alias, sc, hp, hc, hcl, hv => by
+      simp only [pureMod] at hp
+      simp only [closedMod] at hc
+      simp only [compileMod]
+      split
+      · -- include
+        rename_i ha
+        simp only [inlineMod]
+        rw [compileImports_inline cfg hiso imps _ hp hc (by simpa using hv)]
+        rw [compileDefs_append, compileDefs_depth]
+        cases h1 : compileDefs cfg (inlineImports imps) sc with
+        | error e => simp [Except.map]
+        | ok s =>
+          simp only [Except.map]
+          rw [compileDefs_depth]
+          cases h2 : compileDefs cfg defs s with
+          | error e => simp [Except.map]
+          | ok s3 =>
+            have ⟨_, a2, a3⟩ := compileDefs_spec h1
+            have ⟨_, b2, b3⟩ := compileDefs_spec h2
+            simp only [Except.map]
+            congr 1
+            cases s3 with
+            | mk f v dd =>
+              simp only at b2 b3
+              simp [b2, a2, b3, a3]
+      · rename_i ha
+        simp only [inlineMod]
+        have htake : List.take (min cfg.globalcnt sc.variables.length) sc.variables = sc.variables := by
+          rw [Nat.min_eq_right hv]; exact List.take_length
+        rw [htake]
+        rw [compileImports_inline cfg hiso imps _ hp hc (by simpa using hv)]
+        have hclosed : closedDefs [] (inlineImports imps ++ defs) = true := by
+          rcases hcl with h | h
+          · exact absurd h ha
+          · simpa [inlineMod] using h
+        have hr := compileDefs_renamed cfg alias sc.funcs sc.variables sc.depth (sc.depth + 1)
+          (inlineImports imps ++ defs) [] (by simpa using hclosed)
+        have hsc : outerScope alias sc.funcs [] sc.variables sc.depth = sc := by
+          cases sc; simp [outerScope]
+        rw [hsc] at hr
+        rw [hr, compileDefs_append]
+        cases h1 : compileDefs cfg (inlineImports imps) ⟨[], sc.variables, sc.depth + 1⟩ with
+        | error e => simp [Except.map]
+        | ok s =>
+          simp only [Except.map]
+          cases h2 : compileDefs cfg defs s with
+          | error e => rfl
+          | ok s3 => simp [outerScope]
+  theorem compileImports_inline (cfg : Cfg) (hiso : cfg.isolate = true) :
+      ∀ (imps : List ITree) (sc : Scope), pureImports imps = true → closedImports imps = true →
+        sc.variables.length ≤ cfg.globalcnt →
+        compileImports cfg imps sc = compileDefs cfg (inlineImports imps) sc
+    | [], sc, _, _, _ => by simp [compileImports, inlineImports, compileDefs]
+    | .mod alias t :: rest, sc, hp, hc, hv => by
+      simp only [pureImports, Bool.and_eq_true] at hp
+      simp only [closedImports, Bool.and_eq_true, Bool.or_eq_true, decide_eq_true_eq] at hc
+      simp only [compileImports, inlineImports]
+      rw [compileMod_inline cfg hiso t alias sc hp.1 hc.1.2 hc.1.1 hv, compileDefs_append]
+      cases h1 : compileDefs cfg (if alias = "" then inlineMod t else renameDefs alias (inlineMod t)) sc with
+      | error e => rfl
+      | ok s =>
+        have ⟨_, a2, _⟩ := compileDefs_spec h1
+        exact compileImports_inline cfg hiso rest s hp.2 hc.2 (by rw [a2]; exact hv)
+    | .data _ _ :: rest, sc, hp, _, _ => by simp [pureImports] at hp
+    | .fail _ :: rest, sc, hp, _, _ => by simp [pureImports] at hp
+end
+
+
+/-! ### modulemeta: the definition list is sorted -/
+
+
+def defLe (a b : String × Nat) : Prop := defLt b a = false
+
+theorem defLt_iff (a b : String × Nat) : defLt a b = true ↔ a.1 < b.1 ∨ (a.1 = b.1 ∧ a.2 < b.2) := by
+  simp [defLt]
+
+theorem defLe_total (a b : String × Nat) : defLe a b ∨ defLe b a := by
+  unfold defLe
+  by_cases h : defLt b a = true
+  · right
+    rw [defLt_iff] at h
+    cases hh : defLt a b with
+    | false => rfl
+    | true =>
+      rw [defLt_iff] at hh
+      rcases h with h | ⟨h1, h2⟩ <;> rcases hh with hh | ⟨hh1, hh2⟩
+      · exact absurd hh (String.lt_asymm h)
+      · rw [hh1] at h; exact absurd h (String.lt_irrefl _)
+      · rw [h1] at hh; exact absurd hh (String.lt_irrefl _)
+      · omega
+  · left; simpa using h
+
+theorem defLe_trans (a b c : String × Nat) (h1 : defLe a b) (h2 : defLe b c) : defLe a c := by
+  unfold defLe at *
+  cases hh : defLt c a with
+  | false => rfl
+  | true =>
+    exfalso
+    rw [defLt_iff] at hh
+    have n1 : ¬ (b.1 < a.1 ∨ (b.1 = a.1 ∧ b.2 < a.2)) := by rw [← defLt_iff]; simp [h1]
+    have n2 : ¬ (c.1 < b.1 ∨ (c.1 = b.1 ∧ c.2 < b.2)) := by rw [← defLt_iff]; simp [h2]
+    simp only [not_or, not_and] at n1 n2
+    have ab : a.1 ≤ b.1 := String.not_lt.mp n1.1
+    have bc : b.1 ≤ c.1 := String.not_lt.mp n2.1
+    rcases hh with hh | ⟨e, hh⟩
+    · exact absurd hh (String.not_lt.mpr (String.le_trans ab bc))
+    · -- c.1 = a.1, so a.1 = b.1 = c.1
+      have hba : b.1 ≤ a.1 := by rw [← e]; exact bc
+      have eab : a.1 = b.1 := String.le_antisymm ab hba
+      have ebc : c.1 = b.1 := by rw [e, eab]
+      have := n1.2 eab.symm
+      have := n2.2 ebc
+      omega
+
+theorem insertDef_mem (x y : String × Nat) (l : List (String × Nat)) : y ∈ insertDef x l ↔ y = x ∨ y ∈ l := by
+  induction l with
+  | nil => simp [insertDef]
+  | cons z zs ih =>
+    simp only [insertDef]
+    split
+    · simp only [List.mem_cons, ih]
+      constructor
+      · rintro (h | h | h)
+        · exact Or.inr (Or.inl h)
+        · exact Or.inl h
+        · exact Or.inr (Or.inr h)
+      · rintro (h | h | h)
+        · exact Or.inr (Or.inl h)
+        · exact Or.inl h
+        · exact Or.inr (Or.inr h)
+    · simp [List.mem_cons]
+
+theorem insertDef_sorted (x : String × Nat) (l : List (String × Nat)) (h : l.Pairwise defLe) :
+    (insertDef x l).Pairwise defLe := by
+  induction l with
+  | nil => simp [insertDef]
+  | cons z zs ih =>
+    simp only [insertDef]
+    rw [List.pairwise_cons] at h
+    split
+    · rename_i hz
+      rw [List.pairwise_cons]
+      refine ⟨?_, ih h.2⟩
+      intro y hy
+      rcases (insertDef_mem x y zs).mp hy with rfl | hy
+      · -- z ≤ x since z < x
+        rcases defLe_total z y with h' | h'
+        · exact h'
+        · unfold defLe at h'; rw [hz] at h'; cases h'
+      · exact h.1 y hy
+    · rename_i hz
+      have hxz : defLe x z := by unfold defLe; simpa using hz
+      rw [List.pairwise_cons]
+      refine ⟨?_, List.pairwise_cons.mpr h⟩
+      intro y hy
+      rcases List.mem_cons.mp hy with rfl | hy
+      · exact hxz
+      · exact defLe_trans _ _ _ hxz (h.1 y hy)
+
+theorem sortDefs_sorted (l : List (String × Nat)) : (sortDefs l).Pairwise defLe := by
+  induction l with
+  | nil => simp [sortDefs]
+  | cons x xs ih => exact insertDef_sorted x _ ih
+
+theorem sortDefs_mem (y : String × Nat) (l : List (String × Nat)) : y ∈ sortDefs l ↔ y ∈ l := by
+  induction l with
+  | nil => simp [sortDefs]
+  | cons x xs ih => simp [sortDefs, insertDef_mem, ih]
+
+theorem sortDefs_length (l : List (String × Nat)) : (sortDefs l).length = l.length := by
+  have hins : ∀ x (l : List (String × Nat)), (insertDef x l).length = l.length + 1 := by
+    intro x l
+    induction l with
+    | nil => rfl
+    | cons z zs ih => simp only [insertDef]; split <;> simp [ih]
+  induction l with
+  | nil => rfl
+  | cons x xs ih => simp [sortDefs, hins, ih]
+
+
 end Gojq.Modules
